@@ -94,6 +94,7 @@ class Ev:
         e.qdepth = getattr(self, 'qdepth', 0)
         e.qinfo = getattr(self, 'qinfo', None)
         e.name_st = getattr(self, 'name_st', None)
+        e.last_resort = getattr(self, 'last_resort', None) if kw.get('resolver', self.resolver) is not None else None
         return e
 
     # -- helpers
@@ -252,6 +253,11 @@ class Ev:
         tk = self.pkg + '.' + n
         if tk in self.types.t:
             return TypeRef(tk)
+        lr = getattr(self, 'last_resort', None)
+        if lr is not None:
+            v = lr(n)
+            if v is not None:
+                return v
         raise SpecError('unknown identifier %r' % n)
 
     def ev_sel(self, e):
